@@ -43,7 +43,7 @@ META = {
                           'step_generator_function/__call__', 'MaxStepGenerator.__init__', 'get_nominal_step', 'get_base_step',
                           'default_scale', 'make_exact', 'numdifftools.limits.CStepGenerator.__init__/step_ratio/dtheta/num_steps/_check_path'],
     'bounds': 'offsets -3..3, num_steps <= 12 (symbolic base/ratio); x scalar and shape (2,); n, order unbounded for the counting '
-              'logic; default_scale table n, order <= 10; CStepGenerator ratios {2,4,16}, dtheta {pi/8, 0.5}',
+              'logic; default_scale table n, order <= 10; CStepGenerator ratios {2,4,16}, dtheta {pi/8, 0.5, -pi/8, -2}',
     'outside_claim': ['non-integer offset, symbolic scale (real powers)', 'log/exp of symbolic values (uninterpreted)'],
     'stubs': ['module global np -> symbolic numpy proxy', 'np.log of a symbolic value -> uninterpreted function'],
     'assumptions': ['exact real arithmetic except the make_exact float64 lemma', 'step_ratio > 1'],
@@ -255,7 +255,8 @@ def fp(job):
 
 def cstep(job, lim):
     base = sn.real_var('base')
-    for path, dth in (('radial', math.pi / 8), ('spiral', math.pi / 8), ('spiral', 0.5)):
+    for path, dth in (('radial', math.pi / 8), ('spiral', math.pi / 8), ('spiral', 0.5), ('spiral', -math.pi / 8), ('spiral', -2.0),
+                      ('radial', -0.5)):
         for ratio in (2.0, 4.0, 16.0):
             def harness():
                 with tr.traced():
@@ -391,14 +392,17 @@ def replay(cex):
     if kind == 'scale':
         return True, 'default_scale(%s) = %r, documented table %r' % (cex['entry'], cex['got'], cex['want'])
     if kind == 'cstep':
-        g = lim.CStepGenerator(base_step=0.5, step_ratio=4.0, step_nom=1.0, path=cex.get('path', 'spiral'), dtheta=0.5, offset=1,
-                               use_exact_steps=False)
-        got = list(g(0.0))
-        r = g.step_ratio
-        n = g.num_steps
-        want = [0.5 * r ** (i + 1) for i in range(n - 1, -1, -1)]
-        if len(got) != len(want) or any(abs(a - b) > 1e-9 * abs(b) for a, b in zip(got, want)):
-            return True, 'CStepGenerator yields %r, documented %r' % (got[:3], want[:3])
+        import cmath
+        for dth in (0.5, -0.5, math.pi / 8, -math.pi / 8):
+            for pth in ('spiral', 'radial'):
+                g = lim.CStepGenerator(base_step=0.5, step_ratio=4.0, step_nom=1.0, path=pth, dtheta=dth, offset=1,
+                                       use_exact_steps=False)
+                got = list(g(0.0))
+                r = 4.0 * cmath.exp(1j * dth) if pth == 'spiral' else 4.0
+                n = 2 * int(round(16.0 / math.log(4.0))) + 1
+                want = [0.5 * r ** (i + 1) for i in range(n - 1, -1, -1)]
+                if len(got) != len(want) or any(abs(a - b) > 1e-9 * abs(b) for a, b in zip(got, want)):
+                    return True, 'CStepGenerator(path=%s, dtheta=%r) yields %r..., documented %r...' % (pth, dth, got[-3:], want[-3:])
         try:
             lim.CStepGenerator(path='zigzag')
             return True, 'invalid path accepted'
